@@ -105,7 +105,7 @@ static void one_case(uint64_t idx)
         if (bad) { snprintf(d, sizeof(d), "{\"block\":%u,\"key_len\":%u}", bb, klen); snprintf(key, sizeof(key), "%s:%s:%s:differs-from-model", prop, vh_variant, secname[sec]); viol(key, idx, d); }
     } else if (sec == 3) {
         const vh_cipher *c = &vh_ciphers[k % CIPH_N]; int be, what, opi; char pfx[160];
-        chist_gen(&H, c, &r, G_MISALIGN | G_INBETWEEN_KEYS | G_REKEY_MID | G_SMALL | ((k & 4) ? G_INVALID | G_LIFECYCLE : 0));
+        chist_gen(&H, c, &r, G_MISALIGN | G_INBETWEEN_KEYS | G_REKEY_MID | G_SMALL | G_PLAIN_TWEAK | ((k & 4) ? G_INVALID | G_LIFECYCLE : 0));
         chist_model(&H, &TM);
         if (vh_want_sample()) { vh_sb sj; sb_init(&sj); chist_json(&H, &sj); vh_sample(sj.p); sb_free(&sj); }
         for (be = 0; be <= maxbe[c->id]; ++be) {
